@@ -1078,6 +1078,167 @@ fn type_level_program(rng: &mut Rng) -> String {
     templates[rng.below(templates.len())].clone()
 }
 
+/// W10: source *layout* that only rendering code cares about: tabs, mixed and ambiguous
+/// indentation, very long lines, non-ASCII text around the reported range, ranges spanning lines,
+/// CRLF line ends, several diagnostics quoting the same line.
+fn layout_program(rng: &mut Rng) -> String {
+    let accents = ["é", "ü", "ß", "λ", "中", "ñ", "ø"];
+    let long_comment = |rng: &mut Rng, n: usize| -> String {
+        let mut t = String::from(" # ");
+        for i in 0..n {
+            t.push_str(if rng.chance(1, 3) { accents[rng.below(accents.len())] } else { "x" });
+            if i % 7 == 6 {
+                t.push(' ');
+            }
+        }
+        t
+    };
+    match rng.below(6) {
+        0 => {
+            // tabs in quoted lines + indentation steps that tie
+            // two different indentation steps, used equally often or not (an indentation guesser
+            // has to break the tie)
+            let steps = [rng.range(1, 4), rng.range(5, 8)];
+            let mut text = String::new();
+            let blocks = rng.range(1, 3);
+            for b in 0..blocks {
+                for (j, step) in steps.iter().enumerate() {
+                    if b + 1 == blocks && j == 1 && rng.chance(1, 3) {
+                        continue; // sometimes no tie
+                    }
+                    text.push_str(&format!("f{b}{j} =\n{}(a{b}{j} : int) => a{b}{j}\n", " ".repeat(*step)));
+                }
+            }
+            text.push_str("g =\n  (c : int) =>\n    c\n");
+            if rng.chance(1, 2) {
+                // without the last block the counts of 2 and of the first step may tie as well
+                text = text.replace("g =\n  (c : int) =>\n    c\n", "g = (c : int) => c\n");
+            }
+            text.push_str(&format!("h =\t{}f zed{}\n", if rng.chance(1, 2) { "\t" } else { "" }, if rng.chance(1, 2) { "\t+ 1" } else { "" }));
+            text.push_str("k =\tg\ttrue\n");
+            text.push_str("h\n");
+            text
+        }
+        1 => {
+            // an error on a very long line with multi-byte characters at various distances
+            let before = rng.range(0, 140);
+            let after = rng.range(60, 200);
+            let pad: String = (0..before).map(|i| if i % 9 == 8 { ' ' } else { 'a' }).collect();
+            let name = if before > 0 { format!("{} ", pad.trim()) } else { String::new() };
+            let _ = name;
+            format!(
+                "résultat = 1\ndouble = (n : int) => n + n\nvalue{} = double missing{}\nvalue{}\n",
+                before,
+                long_comment(rng, after),
+                before
+            )
+        }
+        2 => {
+            // a long line: many parameters, error in the middle
+            let n = rng.range(20, 60);
+            let params: String = (0..n).map(|i| format!("(p{i} : int) => ")).collect();
+            let at = rng.below(n);
+            let tail_len = rng.range(0, 120);
+            format!("f = {params}p{at} + true + p0{}\nf\n", long_comment(rng, tail_len))
+        }
+        3 => {
+            // ranges that span several lines, at the end of the file, without a final newline
+            let body = match rng.below(3) {
+                0 => "if true\n  then 1\n  else\n    (x : int) =>\n      x",
+                1 => "(\n  1 +\n  true +\n  2\n)",
+                _ => "f = (x : int) =>\n  x\nf\n  true\n  3",
+            };
+            let tail = match rng.below(3) {
+                0 => "",
+                1 => "\n",
+                _ => "\n\n\n",
+            };
+            format!("{body}{tail}")
+        }
+        4 => {
+            // CRLF line ends and trailing spaces
+            let text = "a = 1\nb = a + missing\nc : bool = a\nb + c\n";
+            text.replace('\n', if rng.chance(1, 2) { "\r\n" } else { " \n" })
+        }
+        _ => {
+            // several diagnostics on one line
+            let k = rng.range(2, 6);
+            let terms: Vec<String> = (0..k).map(|i| if i % 2 == 0 { format!("u{i}") } else { "true".to_owned() }).collect();
+            let tail_len = rng.range(0, 100);
+            format!("total = {}{}\ntotal\n", terms.join(" + "), long_comment(rng, tail_len))
+        }
+    }
+}
+
+/// More shapes that seeded changes needed (kept together so that the reason stays visible).
+fn targeted_program(rng: &mut Rng) -> String {
+    match rng.below(4) {
+        0 => {
+            // a conversion check that has to unfold a chain of 3-6 definitions, and fails
+            // (conversion re-unfolds at every level, so the cost is exponential in the length)
+            let n = rng.range(3, 6);
+            let mut text = String::from("nat = int\none : nat = 1\n");
+            let mut prev = "one".to_owned();
+            for i in 0..n {
+                let name = format!("step{i}");
+                match rng.below(3) {
+                    0 => text.push_str(&format!("{name} : nat = {prev} + one\n")),
+                    1 => text.push_str(&format!("{name} = (n : nat) => n * {prev}\n")),
+                    _ => text.push_str(&format!("{name} : nat = {prev} * 2\n")),
+                }
+                if !text.lines().last().unwrap_or("").contains("=>") {
+                    prev = name;
+                }
+            }
+            text.push_str(&format!("vec = (n : nat) => if n + {prev} == {} then bool else int\n", rng.range(1, 9)));
+            text.push_str(&format!("x : vec {prev} = {}\nx\n", if rng.chance(1, 2) { "3" } else { "true" }));
+            text
+        }
+        1 => {
+            // substitution that puts a binder under a binder of the same name (the parser forbids
+            // writing that, evaluation and type-level application create it)
+            let templates = [
+                "f = (y : type -> type) => (x : type) => y x\nf ((x : type) => x)\n",
+                "app = (g : int -> int) => (n : int) => g n\napp ((n : int) => n + 1)\n",
+                "k = (t : type) => (p : t -> type) => (x : t) -> p x\nk int ((x : int) => type)\n",
+                "twice = (f : (x : int) -> int) => (x : int) => f (f x)\ntwice ((x : int) => x * x)\n",
+                "w = (h : type -> type) => (a : type) => (x : h a) => x\n(v : w ((a : type) => a) int 3) => v\n",
+                "c = (f : int -> int -> int) => (x : int) => (y : int) => f y x\nc ((x : int) => (y : int) => x - y)\n",
+            ];
+            (*rng.pick(&templates)).to_owned()
+        }
+        2 => {
+            // many uses (more than any small cache) of a definition whose annotation has a hole,
+            // used in conflicting ways afterwards
+            let n = rng.range(40, 130);
+            let mut text = String::from("p = f 3\n");
+            for k in 0..n {
+                text.push_str(&format!("q{k} = f {k}\n"));
+            }
+            match rng.below(3) {
+                0 => text.push_str("c = p 4 + 1\nd = if p 5 then 1 else 2\n"),
+                1 => text.push_str("c = p 4 + 1\nd = p 5 + 2\n"),
+                _ => text.push_str("c = if p 4 then 1 else 2\nd = p 5 + q0 1\n"),
+            }
+            text.push_str("f : (int -> int -> _) = (x : int) => (y : int) => x\nd\n");
+            text
+        }
+        _ => {
+            // many definitions with holes in their annotations, each used once or twice
+            let n = rng.range(5, 30);
+            let mut text = String::new();
+            for k in 0..n {
+                text.push_str(&format!("u{k} = g{} {k}\n", k % 3));
+            }
+            for j in 0..3 {
+                text.push_str(&format!("g{j} : (int -> _) = (x : int) => {}\n", ["x", "x == 0", "(y : int) => x + y"][j]));
+            }
+            text.push_str(&format!("u{}\n", rng.below(n)));
+            text
+        }
+    }
+}
+
 /// Generated case number `index` of the stream; `corpus` is W1.
 pub fn generate(rng: &mut Rng, corpus: &[String]) -> Case {
     // Swarm: the mix is itself drawn per case.
@@ -1127,7 +1288,9 @@ pub fn generate(rng: &mut Rng, corpus: &[String]) -> Case {
             };
             Case { family: "W9-dependent", source }
         }
-        86..=93 => Case { family: "W7-composite", source: composite(rng, corpus) },
+        86..=88 => Case { family: "W10-layout", source: layout_program(rng) },
+        89..=90 => Case { family: "W9-dependent", source: targeted_program(rng) },
+        91..=95 => Case { family: "W7-composite", source: composite(rng, corpus) },
         _ => {
             // splice two corpus programs at token granularity
             let a = rough_tokens(&base_from_corpus(rng));
